@@ -19,6 +19,10 @@ import numpy as np
 
 from harness.common.num import q, unq, fbits, unfbits
 
+import sys
+
+sys.setrecursionlimit(max(sys.getrecursionlimit(), 5000))  # `monitor_schedule` recurses once per tracker call
+
 EPS = 1e-6  # the literal of `stepper_atol = 1e-6 * dt`
 FIXED_SOLVERS = ["euler", "runge-kutta", "implicit", "crank-nicolson", "adams-bashforth"]
 # the one-step map of the scheme for u' = t is u + dt*(t + shift*dt)
@@ -148,6 +152,9 @@ def make_interrupt(s, via_parse=False):
     from pde.trackers import interrupts as I
 
     k = s["kind"]
+    if via_parse and s.get("text") is not None:
+        # the interrupt as the user writes it: 'geometric(1, 2)'
+        return I.parse_interrupt(s["text"])
     if k == "constant":
         if via_parse and s.get("t_start") is None:
             return I.parse_interrupt(s["dt"])
@@ -156,8 +163,14 @@ def make_interrupt(s, via_parse=False):
         return I.LogarithmicInterrupts(s["dt_initial"], s["factor"], t_start=s.get("t_start"))
     if k == "fixed":
         if via_parse:
-            return I.parse_interrupt(list(s["interrupts"]))
+            # the formats `parse_interrupt` accepts for a list of times: list, tuple, numpy array
+            data = {"tuple": tuple, "array": np.array}.get(s.get("container"), list)(s["interrupts"])
+            return I.parse_interrupt(data)
         return I.FixedInterrupts(s["interrupts"])
+    if k == "realtime":
+        # a time string ('0:01', '0:00:30', ...): `parse_interrupt` makes a RealtimeInterrupts of it, whose
+        # simulation-time schedule follows the wall clock (no defining set; replayed as an oracle in the model)
+        return I.parse_interrupt(s["duration"])
     if k == "geometric":
         if via_parse:
             return I.parse_interrupt(f"geometric({s['scale']!r}, {s['factor']!r})")
@@ -379,7 +392,7 @@ def model_request(case, mode, oracle_for=()):
         elif k == "oracle":
             js = {"kind": k, "answers": ["inf" if a == "inf" else enc(a) for a in s["answers"]]}
         else:
-            raise ValueError(k)
+            raise ValueError(k)  # (realtime schedules are always in `oracle_for`)
         trs.append({"kind": tr["kind"], "sched": js,
                     "stops": [[int(a), b, c or ""] for a, b, c in tr.get("stops", [])]})
     eq = case["eq"]
@@ -401,8 +414,10 @@ def model_request(case, mode, oracle_for=()):
 
 
 def needs_oracle(case, mode):
-    """trackers whose schedule the model cannot replay itself: geometric in Float mode (libm)"""
-    return [i for i, tr in enumerate(case["trackers"]) if tr["sched"]["kind"] == "geometric" and mode == "F"]
+    """trackers whose schedule the model cannot replay itself: geometric in Float mode (libm), wall-clock
+    schedules (time strings) always"""
+    return [i for i, tr in enumerate(case["trackers"])
+            if (tr["sched"]["kind"] == "geometric" and mode == "F") or tr["sched"]["kind"] == "realtime"]
 
 
 def oracle_answers(real, idxs):
@@ -522,13 +537,15 @@ def check_run(ctx, case, real, batch, pending):
         return
     orc = needs_oracle(case, mode)
     for i in orc:
+        if case["trackers"][i]["sched"]["kind"] != "geometric":
+            continue  # (wall-clock schedule: any increasing answers)
         # answers replayed as an oracle must themselves be a geometric schedule (C09's monitor)
         if not geometric_answers_ok(case["trackers"][i]["sched"], real["sched_log"][i]):
             ctx.disagree("correspondence", case, "geometric schedule", real["sched_log"][i][:20],
                          f"answers of the geometric interrupt of tracker {i} are not a geometric schedule")
     i1 = batch.add("c07.run", model_request(case, mode, oracle_answers(real, orc)))
     i2 = i3 = None
-    allg = [i for i, tr in enumerate(case["trackers"]) if tr["sched"]["kind"] == "geometric"]
+    allg = [i for i, tr in enumerate(case["trackers"]) if tr["sched"]["kind"] in ("geometric", "realtime")]
     if mode == "F":
         # the same float inputs through the exact model: how often do exact and IEEE arithmetic part ways?
         i2 = batch.add("c07.run", model_request(case, "Q", oracle_answers(real, allg)))
@@ -564,6 +581,7 @@ def resolve(ctx, pending, answers, batch2):
         if d is not None:
             geo = [i for i, tr in enumerate(case["trackers"]) if tr["sched"]["kind"] == "geometric"]
             if geo and case["numbers"] == "Q":
+                geo += [i for i, tr in enumerate(case["trackers"]) if tr["sched"]["kind"] == "realtime"]
                 j = batch2.add("c07.run", model_request(case, "Q", oracle_answers(real, geo)))
                 retry.append((case, real, j, d))
             else:
@@ -764,6 +782,10 @@ KNOWN_CORNERS = {
         "call_site": "Controller._run_main_process final handle (atol = 1e-6*dt)",
         "what": "floor(T/D)+1 frames on a range that is a whole number of steps",
         "corner": "scheduled time in (t_end, t_end + 1e-6*dt) is served at t_end"},
+    "geometric-log-overshoot": {
+        "call_site": "GeometricInterrupts.next (np.ceil of np.log(t_min/scale)/np.log(factor))",
+        "what": "a scheduled time equal to the time the schedule is asked about is served",
+        "corner": "the float estimate of the exponent rounds above the exact integer"},
     "extra-frame-before-final-time": {
         "call_site": "Controller._run_main_process main loop (tracker_atol = dt/2)",
         "what": "the one frame more than floor(T/D)+1 is taken at the final time",
@@ -783,8 +805,9 @@ def final_handle_time(case, t):
     return not (t < case["t_end"] - EPS * case["dt"])
 
 
-def monitor_trackers(case, real):
-    """C08 on one run: list of (what, observed, expected)"""
+def monitor_trackers(case, real, stats=None):
+    """C08 on one run: list of (what, observed, expected[, known corner]); `stats(name, key)` receives how each
+    non-constant schedule was judged (for the evidence histograms)"""
     bad = []
     dt, t0, t1 = case["dt"], case["t_start"], case["t_end"]
     exact = case["numbers"] == "Q"
@@ -881,24 +904,10 @@ def monitor_trackers(case, real):
                 bad.append((f"the one frame more than {what_count} of constant tracker {i} is taken at the final time",
                             {"last call": calls[-1], "t_final": tf, "n_calls": n},
                             {"served scheduled time": sig, "t_end": t1, "scheduled times <= t_end": lo}, corner))
-    # fixed lists whose entries inside the range are at least dt apart: each served exactly once within dt/2
+    # non-constant schedules (fixed lists of any shape, geometric, logarithmic, time strings): the literal clause on
+    # the schedule's defining set - see `monitor_schedule`
     for i, tr in enumerate(case["trackers"]):
-        s = tr["sched"]
-        if s["kind"] != "fixed" or t1 < t0:
-            continue
-        pts = [e for e in s["interrupts"] if e >= t0]
-        inside = [e for e in pts if e <= t1]
-        upto = [e for e in pts if e < t1 + EPS * dt + tol + dt]  # entries that can interact with the range
-        if any(b - a < dt for a, b in zip(upto, upto[1:])) or sorted(s["interrupts"]) != list(s["interrupts"]):
-            continue
-        calls = [t for t, _ in per[i]]
-        for k, t in enumerate(calls):
-            if k >= len(pts) or not (abs(t - pts[k]) <= dt / 2 + tol):
-                bad.append((f"call {k} of fixed-list tracker {i} within dt/2 of its scheduled time", t,
-                            pts[k] if k < len(pts) else "no entry left"))
-                break
-        if not stopped and len(calls) < len(inside):
-            bad.append((f"every entry <= t_end of fixed-list tracker {i} is served", calls, inside))
+        bad.extend(monitor_schedule(case, real, i, [t for t, _ in per[i]], stopped, stats))
     # finalisation: every tracker exactly once, in order, on every path
     if real["finalized"] != list(range(n_tr)):
         bad.append(("every tracker finalised exactly once", real["finalized"], list(range(n_tr))))
@@ -937,6 +946,202 @@ def monitor_trackers(case, real):
     else:
         if real["stop_reason"] != "Reached final time" or not real["successful"]:
             bad.append(("run without stop request reaches the final time", real["stop_reason"], "Reached final time"))
+    return bad
+
+
+# ------------------------------------------------------------------------------------------
+# the literal clause for non-constant schedules
+GEOM_AMBIGUOUS = 1e-12  # relative distance below which float log/pow may place a time on either side of a member
+
+
+def geometric_overshoot(scale, factor, t, k):
+    """does the code's own estimate `np.log(t/scale)/np.log(factor)` of the exponent of `t == scale*factor**k`
+    round above the exact integer `k` (so that `np.ceil` answers `k + 1`)?  Recognises the known corner."""
+    with np.errstate(all="ignore"):
+        i = np.log(t / scale) / np.log(factor)
+    return bool(i > k)
+
+
+def schedule_members(s, t0, dt, horizon):
+    """the defining set of a non-constant schedule as the run sees it: list of (time, exponent or index) in the
+    order in which the schedule offers them (a fixed list: list order, all entries; geometric: scale*factor**k,
+    k >= 0, increasing, up to `horizon`; logarithmic: tau0, tau0 + d0, tau0 + d0 + d0*f, ... accumulated like the
+    code does).  None: the schedule has no defining set that is independent of the history of the run."""
+    k = s["kind"]
+    if k == "fixed":
+        return [(float(e), j) for j, e in enumerate(s["interrupts"])]
+    if k == "geometric":
+        sc, f = s["scale"], s["factor"]
+        if not (sc > 0 and f > 1):
+            return None
+        out, j = [], 0
+        if t0 > sc:  # skip the members before the run without walking through them one by one
+            j = max(0, int(math.floor(math.log(t0 / sc) / math.log(f))) - 2)
+        while len(out) < 5000:
+            g = geometric_time(sc, f, j)
+            out.append((g, j))
+            if not g <= horizon:
+                break
+            j += 1
+        return out
+    if k == "logarithmic":
+        d0, f = s["dt_initial"], s["factor"]
+        if not (f >= 1 and d0 >= dt):
+            return None  # gaps below dt: the catch-up depends on the times of the calls (C09), no fixed set
+        a = t0 if s.get("t_start") is None else max(t0, s["t_start"])
+        d = d0 / f
+        out = []
+        while len(out) < 5000:
+            out.append((a, len(out)))
+            if not a <= horizon:
+                break
+            d = d * f   # `self.dt *= self.factor`
+            a = a + d   # `self._t_next += self.dt`
+        return out
+    return None
+
+
+def first_scheduled(s, t0, dt):
+    """(time, exponent / index) of the first scheduled time of a non-constant schedule in a run starting at t0
+    (None: none); a time-string schedule starts at t0"""
+    if s["kind"] == "realtime":
+        return (t0, 0)
+    if s["kind"] == "logarithmic":
+        return (t0 if s.get("t_start") is None else max(t0, s["t_start"]), 0)
+    mem = schedule_members(s, t0, dt, t0 + dt) if s["kind"] in ("fixed", "geometric") else None
+    for e, j in mem or []:
+        if e >= t0:
+            return (e, j)
+    return None
+
+
+def monitor_schedule(case, real, i, calls, stopped, stats=None):
+    """The clause "every scheduled time in [t_start, t_end] is served exactly once, in order, by a call within
+    dt/2 of it - the first one AT t_start when t_start is itself scheduled" for tracker `i` with a fixed-list,
+    geometric or logarithmic schedule, judged against the schedule's defining set (properties.jsonl, C09): the
+    pending scheduled time is the first not-yet-passed member (`>=` the time of the previous call; at the start:
+    `>= t_start`) after the one served last; for a list in list order.  The k-th call must serve the k-th pending
+    time p_k: not earlier than dt/2 before it and not later than dt/2 after it; only a member that was less than dt/2
+    ahead when it became pending (members closer than dt: the analogue of D < dt) is served one step after the
+    previous call instead.  Without a stop request nothing scheduled <= t_end may stay pending.  Members the
+    schedule has passed (closer than dt/2 to a call, or out of order in a list) are not served: this is C09's
+    definition of these schedules, for every list shape - sorted, dense, duplicated, unsorted.
+    Wall-clock schedules (time strings) have no defining set: their first call must be at t_start."""
+    tr = case["trackers"][i]
+    s = tr["sched"]
+    kind = s["kind"]
+    dt, t0, t1 = case["dt"], case["t_start"], case["t_end"]
+    tf = real["t_final"]
+    tol = 0.0 if case["numbers"] == "Q" else _tol(case)
+    name = {"fixed": "fixed-list", "geometric": "geometric", "logarithmic": "logarithmic"}.get(kind, kind)
+    note = stats or (lambda *a: None)
+    if kind == "realtime":
+        if not calls or calls[0] != t0:
+            return [(f"first call of time-string tracker {i} is at t_start", calls[:3], t0)]
+        note("non-constant schedule judged", "time string: first call at t_start")
+        return []
+    if kind not in ("fixed", "geometric", "logarithmic"):
+        return []
+    horizon = max([t1, t0, tf] + calls[-1:]) + 2 * dt
+    mem = schedule_members(s, t0, dt, horizon)
+    if mem is None:
+        note("non-constant schedule judged", f"{name}: no history-independent defining set (general clauses only)")
+        return []
+    geo = kind == "geometric"
+
+    def slack(p):
+        return tol + (GEOM_AMBIGUOUS * abs(p) if geo else 0.0)
+
+    def pending_after(pos, t):
+        """candidates for the first member after position `pos` that is not yet passed at time `t`: list of
+        positions (two when float log/pow cannot tell on which side of `t` a geometric member lies; [None]:
+        exhausted).  A logarithmic schedule with gaps >= dt never skips."""
+        j = pos + 1
+        while j < len(mem):
+            e = mem[j][0]
+            if kind == "logarithmic":
+                return [j]
+            if geo and e != t and abs(e - t) <= GEOM_AMBIGUOUS * abs(t) and j + 1 < len(mem):
+                return [j, j + 1]
+            if e >= t:
+                return [j]
+            j += 1
+        return [None]
+
+    literal = [True]  # no member was passed / served late: the run is judged by the literal clause alone
+
+    def walk(k, pos_cands, t_prev):
+        """failures of calls k.. given the candidates for the pending member; a branch without failure wins"""
+        first_res = None
+        for pos in pos_cands:
+            res = walk1(k, pos, t_prev)
+            if not res:
+                return res
+            if first_res is None:
+                first_res = res
+        return first_res
+
+    def walk1(k, pos, t_prev):
+        res = walk_spec(k, pos, t_prev)
+        if res and geo and pos is not None:
+            p = mem[pos][0]
+            asked = t0 if k == 0 else t_prev  # the time the schedule was asked about when `p` became pending
+            if p == asked and geometric_overshoot(s["scale"], s["factor"], p, mem[pos][1]):
+                # the member equal to the queried time is skipped by the code's float estimate of its exponent
+                # (known corner): recognised if the run fits the schedule without this member
+                if not walk(k, pending_after(pos, asked), t_prev):
+                    what, obs, exp = res[0][:3]
+                    return [(what, obs, exp, "geometric-log-overshoot")]
+        return res
+
+    def walk_spec(k, pos, t_prev):
+        if k == len(calls):
+            if stopped or not t1 >= t0 or pos is None:
+                return []
+            p = mem[pos][0]
+            if not p <= t1:
+                return []
+            if calls and not calls[-1] < tf and not p >= calls[-1] + dt / 2:
+                return []  # became pending at the final time itself, less than dt/2 ahead: served by that call
+            corner = None
+            if not (tf > p - EPS * dt) and not (tf < t1 - EPS * dt):
+                corner = "scheduled-at-t_end-missed"
+            return [(f"every scheduled time <= t_end of {name} tracker {i} is served",
+                     {"calls": calls[-3:], "n_calls": len(calls), "t_final": tf},
+                     {"first scheduled time not served": p, "t_end": t1}, corner)]
+        t = calls[k]
+        if pos is None:
+            return [(f"call {k} of {name} tracker {i} serves a scheduled time", t, "no scheduled time left")]
+        p = mem[pos][0]
+        reach = p + dt / 2 if (k == 0 or p >= t_prev + dt / 2) else max(p + dt / 2, t_prev + dt)
+        if reach != p + dt / 2:
+            literal[0] = False
+        if not (t >= p - dt / 2 - slack(p) and t <= reach + slack(p)):
+            if k == 0 and p == t0:
+                what = f"scheduled time at t_start of {name} tracker {i} is served at t_start"
+            else:
+                what = f"call {k} of {name} tracker {i} within dt/2 of its scheduled time"
+            return [(what, {"call": t, "all calls": calls[:12]}, {"scheduled time": p, "t_start": t0})]
+        nxt = pending_after(pos, t)
+        if nxt[0] is not None and nxt[0] != pos + 1:
+            literal[0] = False
+        return walk(k + 1, nxt, t)
+
+    first = pending_after(-1, t0)
+    bad = walk(0, first, None)
+    if not bad and kind == "fixed" and not stopped and t1 >= t0:
+        inc = all(b[0] > a[0] for a, b in zip(mem, mem[1:]))
+        lost = [e for e, _ in mem if t0 <= e <= t1 and not any(abs(c - e) <= dt + slack(e) for c in calls)]
+        if not inc:
+            # (C09 defines a fixed schedule by "the first not-yet-passed element of the given increasing list": in a list
+            # that is not increasing the entries that come after a later time are passed over - observation, not judged)
+            note("fixed list not in increasing order", f"{min(len(lost), 3)}{'+' if len(lost) > 3 else ''} entries inside the range passed over")
+    if not bad:
+        gaps_ok = literal[0] and all(b[0] - a[0] >= dt for a, b in zip(mem, mem[1:]) if a[0] >= t0 and b[0] <= t1)
+        on_start = first[0] is not None and mem[first[0]][0] == t0
+        note("non-constant schedule judged",
+             f"{name}: " + ("literal clause (members >= dt apart)" if gaps_ok else "with passed / merged members")
+             + (", t_start scheduled" if on_start else ""))
     return bad
 
 
@@ -1014,6 +1219,17 @@ def monitor_exact(case, real, strict_exact=True):
             lo = sum(1 for x in acc if x <= t1 - rt)
             if len(per[i]) < lo:
                 bad.append((f"every scheduled time <= t_end of constant tracker {i} is served", len(per[i]), lo))
+    # non-constant schedules: a scheduled time that is t_start itself is served at t_start
+    for i, tr in enumerate(case["trackers"]):
+        s = tr["sched"]
+        if s["kind"] not in ("fixed", "geometric", "logarithmic", "realtime"):
+            continue
+        p0 = first_scheduled(s, t0, dt)
+        if p0 is not None and p0[0] == t0 and not (per[i] and per[i][0] == t0):
+            corner = None
+            if s["kind"] == "geometric" and geometric_overshoot(s["scale"], s["factor"], t0, p0[1]):
+                corner = "geometric-log-overshoot"
+            bad.append((f"scheduled time at t_start of {s['kind']} tracker {i} is served at t_start", per[i][:6], t0, corner))
     if real["finalized"] != list(range(n_tr)):
         bad.append(("every tracker finalised exactly once", real["finalized"], list(range(n_tr))))
     if stopped:
@@ -1056,6 +1272,11 @@ def gen_base(rng, numbers, hist, max_steps=120):
     else:
         dt = rng.choice(DECIMAL_DT)
         t0 = rng.choice(DECIMAL_T0)
+    return gen_range(rng, numbers, hist, max_steps, dt, t0)
+
+
+def gen_range(rng, numbers, hist, max_steps, dt, t0):
+    """the range part of `gen_base` for a given step and start time: (dt, t_start, t_end, N, delta)"""
     r = rng.random()
     n = rng.choice([1, 2, 3, 4, 5, 7, 10, 16, 25, 33, 50, 64, 100, max_steps])
     n = min(n, max_steps)
@@ -1183,6 +1404,80 @@ def gen_sched(rng, numbers, dt, t0, t1, hist, adversarial=True):
         else:
             ans.append("inf")
     return {"kind": "oracle", "answers": ans}
+
+
+def geometric_time(scale, factor, k):
+    """`GeometricInterrupts`' own arithmetic for the k-th member of its sequence: a Python float times a Python
+    float raised to a numpy float (`self.scale * self.factor ** np.ceil(i)`)"""
+    return float(scale * factor ** np.float64(k))
+
+
+def _is_exact(x, frac):
+    return math.isfinite(x) and Fraction(x) == frac
+
+
+REALTIME_STRINGS = ["0:01", "0:00:01", "1", "0:00:30", "00:01:00", "0:00:00.5"]
+
+
+def gen_anchor(rng, numbers, dt, hist):
+    """(schedule, t_start, via_parse, label): a non-constant schedule together with a start time of the run
+    that is *itself one of its scheduled times* - `t_start = scale*factor**k` (k = 0 included) of a geometric
+    schedule (in dyadic mode only where the product is exact), the `t_start` argument of a logarithmic one, an
+    entry of a fixed list (sorted, unsorted, dense, with duplicates; as list / tuple / array / FixedInterrupts).
+    The start-free part of the generator never produces these coincidences."""
+    ratios = RATIOS_Q if numbers == "Q" else RATIOS_F
+    kind = rng.choice(["geometric"] * 5 + ["fixed"] * 4 + ["logarithmic"] * 2)
+    if kind == "geometric":
+        for _ in range(50):
+            if numbers == "Q":
+                f = rng.choice([2.0, 2.0, 4.0, 1.5, 3.0, 5.0, 5.0])
+                sc = rng.choice([rng.choice(ratios) * dt * rng.choice([1, 1, 0.5, 4]), 1.0, 1.0, 0.5, 2.0,
+                                 float(rng.randint(1, 8)), dyadic(rng, 1, 16, 3)])
+            else:
+                f = rng.choice([1.1, 2.0, 10.0, 1.3, 1.5, 5.0, 3.0])
+                sc = rng.choice([rng.choice(ratios) * dt * rng.choice([1, 1, 0.5, 4]), 1.0, 0.1, 0.5, 0.3, 2.5])
+            k = rng.choice([0, 0, 0, 1, 1, 2, 3, 3, 4, 5, 6, 7])
+            t0 = geometric_time(sc, f, k)
+            if numbers == "Q" and not (_is_exact(t0, Fraction(sc) * Fraction(f) ** k) and abs(t0) < 2.0 ** 20):
+                continue
+            if not t0 <= 256 * dt:
+                continue  # (keeps the number of later scheduled times inside a range of <= 120 steps non-trivial)
+            hist("start on a scheduled time", f"geometric k={min(k, 4)}{'+' if k >= 4 else ''}")
+            sched = {"kind": "geometric", "scale": sc, "factor": f}
+            if sc == int(sc) and f == int(f) and rng.random() < 0.7:
+                # integers as a user types them, with the white space the pattern of `parse_interrupt` allows
+                sched["text"] = rng.choice(["geometric({}, {})", "geometric({},{})", "geometric( {} , {} )"]).format(int(sc), int(f))
+            return sched, t0, "text" in sched or rng.random() < 0.5, f"geometric k={k}"
+        kind = "fixed"
+    if numbers == "Q":
+        t0 = rng.choice([0.0, dyadic(rng, 0, 64, 4), -dyadic(rng, 0, 16, 3), dyadic(rng, 1, 32, 2)]) + 0.0
+    else:
+        t0 = rng.choice(DECIMAL_T0)
+    if kind == "logarithmic":
+        f = rng.choice([1.0, 2.0, 2.0, 4.0]) if numbers == "Q" else rng.choice([1.0, 1.1, 1.3, 2.0, 1.7, 1.25, 1.5, 3.0])
+        d0 = rng.choice([r for r in ratios if r >= 1]) * dt
+        # the schedule starts at max(t_start of the run, its own t_start): own start equal to / before the run's
+        own = rng.choice([None, t0, t0, t0 - rng.choice(ratios) * dt])
+        hist("start on a scheduled time", "logarithmic t_start " + ("omitted" if own is None else "== run" if own == t0 else "< run"))
+        return {"kind": "logarithmic", "dt_initial": d0, "factor": f, "t_start": own}, t0, False, "logarithmic"
+    # fixed list with t_start among its entries
+    style = rng.choice(["sorted", "sorted", "sorted", "dense", "duplicates", "unsorted", "before"])
+    n = rng.choice([1, 2, 3, 5, 8])
+    pts = [t0]
+    for _ in range(n - 1):
+        step = rng.choice([r for r in ratios if r >= 1]) * dt * rng.randint(1, 4)
+        if style in ("dense", "duplicates") and rng.random() < 0.6:
+            step = rng.choice([0.25, 0.5, 0.75, 0.125, 1.0, 0.375] if numbers == "Q" else [0.3, 0.5, 0.7, 0.1, 1e-7, 0.49999999]) * dt
+        if style == "duplicates" and rng.random() < 0.4:
+            step = 0.0
+        pts.append(pts[-1] + step)
+    if style == "before":  # entries before the start of the run, then t_start itself
+        pts = [t0 - rng.choice(ratios) * dt * j for j in range(rng.randint(1, 3), 0, -1)] + pts
+    if style == "unsorted":
+        rng.shuffle(pts)
+    hist("start on a scheduled time", f"fixed list ({style})")
+    container = rng.choice(["list", "list", "tuple", "array"])
+    return ({"kind": "fixed", "interrupts": pts, "container": container}, t0, rng.random() < 0.6, f"fixed {style}")
 
 
 def gen_trackers(rng, numbers, dt, t0, t1, hist, n=None, shared_objects=False):
